@@ -7,8 +7,12 @@ package main
 
 import (
 	"fmt"
+	"math"
 	"sort"
 	"time"
+
+	"github.com/smart-core-os/sc-api/go/types"
+	"google.golang.org/protobuf/types/known/durationpb"
 
 	"github.com/smart-core-os/sc-golang/internal/testproto"
 	"github.com/smart-core-os/sc-golang/pkg/resource"
@@ -23,7 +27,7 @@ import (
 
 func init() { vh.Register("C01T", genC01T) }
 
-const treeHeader = "From SC Require Import Base.Prelude Msg.Msg Msg.Schema Msg.Path Masks.Get Masks.Update Resource.Impl Resource.Spec Resource.Flat Resource.Tree Resource.TreeJudge.\nOpen Scope string_scope."
+const treeHeader = "From SC Require Import Base.Prelude Msg.Msg Msg.Schema Msg.Path Masks.Get Masks.Update Resource.Impl Resource.Spec Resource.Flat Resource.Tree Resource.Tween Resource.TreeJudge.\nOpen Scope string_scope."
 
 var tat = &testproto.TestAllTypes{}
 
@@ -31,6 +35,7 @@ type tgen struct {
 	r    *vcoq.Rand
 	resw *fieldmaskpb.FieldMask
 	idf  *idf
+	pt   proto.Message // message type of the resource (nil: TestAllTypes); used by the stream cases of tree04.go
 }
 
 func (g *tgen) msg() *testproto.TestAllTypes {
@@ -41,7 +46,7 @@ func (g *tgen) msg() *testproto.TestAllTypes {
 
 // mask: mostly valid nested paths, sometimes parent+child, duplicates, or a corrupted path
 func (g *tgen) mask(allowBad bool) *fieldmaskpb.FieldMask {
-	md := tat.ProtoReflect().Descriptor()
+	md := g.proto().ProtoReflect().Descriptor()
 	n := g.r.Range(0, 3)
 	fm := &fieldmaskpb.FieldMask{Paths: []string{}}
 	for i := 0; i < n; i++ {
@@ -56,6 +61,13 @@ func (g *tgen) mask(allowBad bool) *fieldmaskpb.FieldMask {
 	}
 	// a handful of paths used often, so that masks relate to each other (parent / child / equal)
 	common := []string{"default_int32", "default_string", "default_foreign_message", "default_foreign_message.c", "default_nested_message", "repeated_int32", "map_string_string", "oneof_default_int32", "optional_int32"}
+	if g.pt != nil {
+		common = nil
+		fds := md.Fields()
+		for i := 0; i < fds.Len(); i++ {
+			common = append(common, string(fds.Get(i).Name()))
+		}
+	}
 	if g.r.Chance(60) {
 		fm.Paths = append(fm.Paths, common[g.r.Intn(len(common))])
 	}
@@ -66,15 +78,17 @@ func (g *tgen) mask(allowBad bool) *fieldmaskpb.FieldMask {
 }
 
 type two struct {
+	xtime               *time.Time // exact explicit write time (boundary times), overrides time
 	time                *int64
 	update, reset, more *fieldmaskpb.FieldMask
 	allWritable         bool
-	expected            *testproto.TestAllTypes
+	expected            proto.Message
 	expectAbsent        bool
 	check               *tchk
 	allowMissing        bool
 	before, after       *ticpt
 	create, createdCb   bool
+	viaPaths            bool // WithUpdatePaths / WithResetPaths / WithMoreWritablePaths instead of the mask variants
 }
 type ticpt struct {
 	add bool
@@ -118,7 +132,11 @@ func (o *two) coq() string {
 	if o.expected != nil {
 		exp = vcoq.Some(vmsg.Value(o.expected))
 	}
-	return vcoq.App("mkTWO", vcoq.OptZ(o.time), vmsg.Mask(o.update), vmsg.Mask(o.reset), vmsg.Mask(o.more), vcoq.Bool(o.allWritable),
+	tm := vcoq.OptZ(o.time)
+	if o.xtime != nil {
+		tm = vcoq.Some(coqBigZ(exactNanos(*o.xtime)))
+	}
+	return vcoq.App("mkTWO", tm, vmsg.Mask(o.update), vmsg.Mask(o.reset), vmsg.Mask(o.more), vcoq.Bool(o.allWritable),
 		exp, vcoq.Bool(o.expectAbsent),
 		optCoq(o.check != nil, func() string {
 			return vcoq.App("TCEq", "\"default_int32\"%string", vcoq.Z(o.check.k), vcoq.Z(int64(o.check.code)))
@@ -129,7 +147,9 @@ func (o *two) coq() string {
 }
 func (o *two) js() any {
 	m := map[string]any{}
-	if o.time != nil {
+	if o.xtime != nil {
+		m["write_time"] = exactNanos(*o.xtime) + " ns since the Unix epoch (" + o.xtime.UTC().Format(time.RFC3339Nano) + ")"
+	} else if o.time != nil {
 		m["write_time"] = *o.time
 	}
 	if o.update != nil {
@@ -172,17 +192,31 @@ func (o *two) js() any {
 }
 func (o *two) opts(created *int) []resource.WriteOption {
 	var out []resource.WriteOption
-	if o.time != nil {
+	if o.xtime != nil {
+		out = append(out, resource.WithWriteTime(*o.xtime))
+	} else if o.time != nil {
 		out = append(out, resource.WithWriteTime(time.Unix(0, *o.time)))
 	}
-	if o.update != nil {
-		out = append(out, resource.WithUpdateMask(proto.Clone(o.update).(*fieldmaskpb.FieldMask)))
-	}
-	if o.reset != nil {
-		out = append(out, resource.WithResetMask(proto.Clone(o.reset).(*fieldmaskpb.FieldMask)))
-	}
-	if o.more != nil {
-		out = append(out, resource.WithMoreWritableFields(proto.Clone(o.more).(*fieldmaskpb.FieldMask)))
+	if o.viaPaths {
+		if o.update != nil {
+			out = append(out, resource.WithUpdatePaths(append([]string{}, o.update.Paths...)...))
+		}
+		if o.reset != nil {
+			out = append(out, resource.WithResetPaths(append([]string{}, o.reset.Paths...)...))
+		}
+		if o.more != nil {
+			out = append(out, resource.WithMoreWritablePaths(append([]string{}, o.more.Paths...)...))
+		}
+	} else {
+		if o.update != nil {
+			out = append(out, resource.WithUpdateMask(proto.Clone(o.update).(*fieldmaskpb.FieldMask)))
+		}
+		if o.reset != nil {
+			out = append(out, resource.WithResetMask(proto.Clone(o.reset).(*fieldmaskpb.FieldMask)))
+		}
+		if o.more != nil {
+			out = append(out, resource.WithMoreWritableFields(proto.Clone(o.more).(*fieldmaskpb.FieldMask)))
+		}
 	}
 	if o.allWritable {
 		out = append(out, resource.WithAllFieldsWritable())
@@ -223,6 +257,7 @@ func (o *two) opts(created *int) []resource.WriteOption {
 func (g *tgen) wopts(forDelete bool, current *testproto.TestAllTypes) *two {
 	o := &two{}
 	r := g.r
+	o.viaPaths = r.Chance(30)
 	if r.Chance(20) {
 		t := int64(r.Range(1, 9)) * 7
 		o.time = &t
@@ -292,9 +327,9 @@ func genC01T(o *vcoq.Out, r *vcoq.Rand, tier string) error {
 	o.Header, o.CaseType, o.Judge, o.Shard = treeHeader, "tcase", "judge01t", 12
 	o.Rule = "Value and Collection call sequences over full TestAllTypes messages (nested messages, oneofs, optional scalars, lists, maps) with nested update / reset / extra-writable / resource-writable / read masks (valid, parent+child, duplicate, unknown, through scalar/map/repeated), expected values, checks, delta interceptors, create-if-absent, id interceptor; every result, the following Get / List compared in Coq with the resource models instantiated with the message algebra of Msg/ and Masks/. Non-trivial: at least one successful and one failed write. Distinct by full term."
 	g := &tgen{r: r}
-	n := 90
+	n := 180
 	if tier == "thorough" {
-		n = 1500
+		n = 2000
 	}
 	for i := 0; i < n; i++ {
 		g.resw, g.idf = nil, nil
@@ -310,18 +345,63 @@ func genC01T(o *vcoq.Out, r *vcoq.Rand, tier string) error {
 			g.collCase(o)
 		}
 	}
+	g.tweenCases(o)
 	return nil
+}
+
+// tweenCases: resource.ValidateTweenOnUpdate on tweens with boundary progress values (+0, -0, NaN,
+// tiny, 1) and total durations around zero and around the int64-nanosecond overflow of AsDuration
+func (g *tgen) tweenCases(o *vcoq.Out) {
+	progress := []float32{0, float32(math.Copysign(0, -1)), float32(math.NaN()), 1e-45, 1, -1, 50}
+	secs := []int64{0, 1, -1, 2, 9223372035, 9223372036, 9223372037, -9223372036, -9223372037, 315576000000, -315576000000, math.MaxInt64, math.MinInt64}
+	nanos := []int32{0, 1, -1, 999999999, -999999999, 500, math.MaxInt32, math.MinInt32}
+	add := func(t *types.Tween, desc string) {
+		err := resource.ValidateTweenOnUpdate("brightness", t)
+		coq := "None"
+		if t != nil {
+			d := "None"
+			if t.TotalDuration != nil {
+				d = vcoq.Some(vcoq.Pair(vcoq.Z(t.TotalDuration.Seconds), vcoq.Z(int64(t.TotalDuration.Nanos))))
+			}
+			coq = vcoq.Some(vcoq.App("mkTween", vcoq.Z(int64(math.Float32bits(t.Progress))), d))
+		}
+		c := vcoq.App("TCaseTween", coq, vcoq.Z(code(err)))
+		o.Add(vcoq.Case{Coq: c, Key: c, NonTrivial: t != nil, Tags: []string{"tween-validation", fmt.Sprintf("tween:code=%d", code(err))},
+			JSON: map[string]any{"kind": "ValidateTweenOnUpdate", "tween": desc, "code": code(err)}})
+	}
+	add(nil, "nil")
+	for i := 0; i < 90; i++ {
+		t := &types.Tween{Progress: progress[g.r.Intn(len(progress))]}
+		if g.r.Chance(60) {
+			t.Progress = 0
+		}
+		if g.r.Chance(85) {
+			t.TotalDuration = &durationpb.Duration{Seconds: secs[g.r.Intn(len(secs))], Nanos: nanos[g.r.Intn(len(nanos))]}
+		}
+		add(t, fmt.Sprintf("progress bits %d, total_duration %v", math.Float32bits(t.Progress), t.TotalDuration))
+	}
 }
 
 func (g *tgen) resOpts(clock *fakeClock) []resource.Option {
 	opts := []resource.Option{resource.WithClock(clock)}
 	if g.resw != nil {
-		opts = append(opts, resource.WithWritableFields(proto.Clone(g.resw).(*fieldmaskpb.FieldMask)))
+		opts = append(opts, g.writableOpt())
 	}
 	if g.idf != nil {
 		opts = append(opts, resource.WithIDInterceptor(g.idf.fn()))
 	}
 	return opts
+}
+
+// writableOpt: WithWritableFields, or WithWritablePaths (which validates the paths against the message
+// type with fieldmaskpb.New and panics otherwise) when the paths are valid for it
+func (g *tgen) writableOpt() resource.Option {
+	if g.r.Chance(40) {
+		if _, err := fieldmaskpb.New(g.proto(), g.resw.Paths...); err == nil {
+			return resource.WithWritablePaths(g.proto(), append([]string{}, g.resw.Paths...)...)
+		}
+	}
+	return resource.WithWritableFields(proto.Clone(g.resw).(*fieldmaskpb.FieldMask))
 }
 
 func (g *tgen) valueCase(o *vcoq.Out) {
@@ -376,8 +456,23 @@ func (g *tgen) valueCase(o *vcoq.Out) {
 
 func (g *tgen) collCase(o *vcoq.Out) {
 	r := g.r
-	coll := resource.NewCollection(g.resOpts(&fakeClock{})...)
+	clock := &fakeClock{frozen: true}
+	copts := g.resOpts(clock)
 	known := map[string]bool{}
+	var recCoq []string
+	recJS := []any{}
+	if r.Chance(40) {
+		// initial records given to the constructor; ids that the id interceptor family leaves alone
+		for _, id := range []string{"b", "a", "c"}[:r.Range(1, 3)] {
+			m := g.msg()
+			copts = append(copts, resource.WithInitialRecord(id, proto.Clone(m)))
+			recCoq = append(recCoq, vcoq.Pair(vcoq.Str(id), vmsg.Value(m)))
+			recJS = append(recJS, []any{id, vmsg.JSON(m)})
+			known[id] = true
+		}
+	}
+	coll := resource.NewCollection(copts...)
+	clock.frozen = false
 	var steps []string
 	var js []any
 	okW, failW := false, false
@@ -418,6 +513,7 @@ func (g *tgen) collCase(o *vcoq.Out) {
 		js = append(js, map[string]any{"op": "List", "read_mask": vmsg.MaskJSON(fm), "list": jl})
 	}
 	ids := []string{"a", "b", "A"}
+	list(nil)
 	for i := r.Range(3, 9); i > 0; i-- {
 		id := ids[r.Intn(len(ids))]
 		var cur *testproto.TestAllTypes
@@ -484,6 +580,10 @@ func (g *tgen) collCase(o *vcoq.Out) {
 		list(g.mask(true))
 	}
 	coq := vcoq.App("TCaseC", vmsg.TypeName(tat), vmsg.Mask(g.resw), g.idf.coq(), vcoq.List(steps))
+	if len(recCoq) > 0 {
+		coq = vcoq.App("TCaseCR", vmsg.TypeName(tat), vmsg.Mask(g.resw), g.idf.coq(), vcoq.List(recCoq), vcoq.List(steps))
+		tags = append(tags, "initial-records")
+	}
 	o.Add(vcoq.Case{Coq: coq, Key: coq, NonTrivial: okW && failW, Tags: tags,
-		JSON: map[string]any{"kind": "tree-collection", "writable": vmsg.MaskJSON(g.resw), "id_interceptor": g.idf.coq(), "steps": js}})
+		JSON: map[string]any{"kind": "tree-collection", "writable": vmsg.MaskJSON(g.resw), "id_interceptor": g.idf.coq(), "initial_records": recJS, "steps": js}})
 }
